@@ -7,6 +7,8 @@
  * functions with scripted transfers is harness/c02_glue.c against coq/Cobs/GlueRun.v.
  *
  * case: <id> <10+variant 0..3 | 14 = command text> <sndbuf> <0> <0> <0> <op>...
+ *       <id> <50+variant 0..3> ...: as 10+variant, but the reader is the stream INPUT object (mpt_stream_input) driven
+ *       like the event loop does: next() on POLLIN, dispatch while Retry, nothing after a negative dispatch result
  *       <id> <20+variant 0,1 | 24> <size> ...: memory streams (mpt_stream_memory): the writer encodes into a user
  *       buffer of <size> bytes, `drain` hands the finished bytes to a reader stream over memory
  *   send HEX   push the message and terminate it (retrying after flush / reader progress)
@@ -28,9 +30,15 @@
 #include "queue.h"
 #include "stream.h"
 #include "connection.h"
+#include "notify.h"
 
 static MPT_STRUCT(stream) w, r;
 static int nrecv;
+/* variants 50..53: the reader is the library's stream INPUT object (mpt_stream_input: what an event loop holds),
+ * driven the way mpt_loop / mpt_notify_wait drive it: next() when poll reports input, then dispatch while it asks
+ * for a retry; after a negative dispatch result the loop waits for new input */
+static MPT_INTERFACE(input) *rin;
+static int rin_fd = -1;
 
 static int on_msg(void *arg, const MPT_STRUCT(message) *msg)
 {
@@ -46,12 +54,32 @@ static int on_msg(void *arg, const MPT_STRUCT(message) *msg)
 	free(tmp);
 	return 0;
 }
+static int on_msg(void *arg, const MPT_STRUCT(message) *msg);
+static int on_event(void *arg, MPT_STRUCT(event) *ev)
+{
+	if (ev && ev->msg) return on_msg(arg, ev->msg);
+	return 0;
+}
+static int do_recv_input(void)
+{
+	int before = nrecv, guard = 0, ret;
+	struct pollfd p;
+	p.fd = rin_fd; p.events = POLLIN; p.revents = 0;
+	if (poll(&p, 1, 0) <= 0 || !(p.revents & POLLIN)) return 0;
+	if (rin->_vptr->next(rin, p.revents) < 0) return 0;
+	while (++guard < 100000 && nrecv <= 4000) {
+		ret = rin->_vptr->dispatch(rin, on_event, 0);
+		if (ret < 0 || !(ret & MPT_EVENTFLAG(Retry))) break;
+	}
+	return (nrecv - before) + 1;
+}
 /* one receive round, following the event loop protocol of the library (mpt_loop): dispatch only after
  * mpt_stream_poll reported input, and again only while the dispatcher asks for a retry.
  * returns number of messages delivered (plus one if bytes were read or buffers changed) */
 static int do_recv(void)
 {
 	int before = nrecv, guard = 0, ret, moved, pr;
+	if (rin) return do_recv_input();
 	size_t l0 = r._rd.data.len, c0 = r._rd._state.curr, m0 = r._rd.data.max;
 	pr = mpt_stream_poll(&r, POLLIN, 0);
 	if (pr > 0 && (pr & POLLIN)) {
@@ -156,9 +184,10 @@ static void run_case(int ntok, char **tok)
 	                             MPT_ENUM(EncodingCobsInline) | MPT_ENUM(EncodingCompress),
 	                             MPT_ENUM(EncodingCommand) };
 	static const MPT_STRUCT(stream) init = MPT_STREAM_INIT;
-	int v = vh_int(tok[1]) - 10, sndbuf = vh_int(tok[2]), t = 6, sv[2];
+	int v = vh_int(tok[1]) - 10, sndbuf = vh_int(tok[2]), t = 6, sv[2], as_input = 0;
 	MPT_STRUCT(socket) sock;
-	if (v >= 10) { run_memory(ntok, tok, codes[v - 10]); return; }
+	if (v >= 40 && v <= 43) { as_input = 1; v -= 40; }
+	else if (v >= 10) { run_memory(ntok, tok, codes[v - 10]); return; }
 	if (v < 0 || v > 4) { vh_tok("?variant"); return; }
 	if (socketpair(AF_UNIX, SOCK_STREAM, 0, sv) < 0) { vh_tok("?socketpair"); return; }
 	fcntl(sv[0], F_SETFL, O_NONBLOCK);
@@ -170,7 +199,11 @@ static void run_case(int ntok, char **tok)
 	sock._id = sv[0];
 	if (!w._wd._enc || mpt_stream_dopen(&w, &sock, MPT_STREAMFLAG(Write) | MPT_STREAMFLAG(WriteBuf)) < 0) { vh_tok("?wopen"); return; }
 	sock._id = sv[1];
-	if (!r._rd._dec || mpt_stream_dopen(&r, &sock, MPT_STREAMFLAG(Read) | MPT_STREAMFLAG(ReadBuf)) < 0) { vh_tok("?ropen"); return; }
+	if (as_input) {
+		if (!(rin = mpt_stream_input(&sock, MPT_STREAMFLAG(Read) | MPT_STREAMFLAG(ReadBuf), codes[v], 0))) { vh_tok("?rinput"); return; }
+		rin_fd = sv[1];
+	}
+	else if (!r._rd._dec || mpt_stream_dopen(&r, &sock, MPT_STREAMFLAG(Read) | MPT_STREAMFLAG(ReadBuf)) < 0) { vh_tok("?ropen"); return; }
 	while (t < ntok) {
 		const char *op = tok[t++];
 		ssize_t rc = 0;
